@@ -60,7 +60,7 @@ def one(args):
     hits = [f for rr in rep.rules for f in rr.findings
             if f.key not in known and f.key not in rev]
     return name, prop, 'ok', [f.key[:200] for f in hits] + \
-        ['ANALYSIS-ERROR ' + m[:200] for m in rep.analysis_errors]
+        ['ANALYSIS-ERROR ' + m[:200] for m in list(rep.analysis_errors) + rep.floor_errors()]
 
 
 def main():
